@@ -1,5 +1,38 @@
 /-
-C01 for a WHOLE TLS connection at the level of `Pipeline.connOut` (HEADER REWRITTEN AT THE END)
+C01 for a WHOLE TLS connection at the level of `Pipeline.connOut`: packets in → addressed frames out, one theorem per
+protocol family, composed from
+  reassembly   `Props/C05.reassembly_exact_inorder` (+ `Lemmas/Capstone.released_filter`: the records released for a
+               direction are what that direction's reassembler hands on)
+  handshake    `server_hello_installs`, `genKeys_installs_rel_legacy`, `genKeys_installs_rel_13`
+  records      the per-record lemmas behind `session_exact` / `legacy_after_hello_exact`, lifted to ANY interleaving of
+               the two directions (`Lemmas/Capstone.run_merge12`, `run_merge13`: each direction has its own cipher state)
+  builder      `connOut_eq`, `connOut_never_raises`, `Props/C06.reassemble_build`, `Props/C07.out_ts_from_carrier`.
+Sender-side specification: `Spec/TlsConnection` (`Transcript`: the two hello records, then per side a script `DirEv`;
+`Script12`, `Script13`; the byte stream of a direction = concatenation of its records).
+
+  `tls12_connection_exact`   SSL 3.0 – TLS 1.2, every class with `is13 = false`; covers False Start, NewSessionTicket
+                             before the server's CCS, any grouping of clear-text handshake messages into records whose
+                             first byte is not 01 / 02, protected handshake records among the application data
+  `tls13_connection_exact`   TLS 1.3 with the four traffic secrets; dummy CCS records anywhere, protected handshake
+                             records of whole messages anywhere (tickets in the application epoch: type ≠ 20, nothing
+                             happens), each Finished switching that side's epoch
+  Conclusion of both: `connOut = some (frames.map (addressed c.opts c))` — `addressed` orients MACs / IPs / ports by
+  `fromServer` and exports the server port per `-m` —, `Spec.reassemble frames = some (client plaintext, server
+  plaintext)` (well-formed conversation; nothing lost, added, duplicated, reordered, left encrypted), and every data
+  segment's time is the capture time of a carrier packet of a released record of its direction.
+  Capture hypotheses: `DeliveredInOrder` (per direction: any cuts, exact duplicates, any ISN incl. wrap; stream < 2^31)
+  and causality on the order in which reassembly RELEASES records: `Causal12` = every record released before the
+  first server record is a client record and no ChangeCipherSpec, and there is one (ClientHello before ServerHello,
+  ServerHello before the client's CCS); `Causal13` = the first released record is the client's, the second the
+  server's. Nothing else about the interleaving. Both halves are needed: `Ex` (1), (2).
+  Hypotheses the RFCs do not give:
+  `tls12_connection_exact_statement` / `_counterexample`   any fragmentation of clear-text handshake messages: a
+                             continuation record starting with byte 01 is taken for a ClientHello, everything is lost
+  `Ex.fragRun`               TLS 1.3 handshake messages fragmented across protected records: the Finished is missed
+  Not covered: early data, HelloRetryRequest, KeyUpdate, alerts, renegotiation, record compression, displaced
+  segments (use `reassembly_exact_partial` in place of `_inorder`: same proof).
+Non-vacuity: `Ex.tls12_instance`, `Ex.tls13_instance` discharge EVERY hypothesis for concrete connections (regenerated
+suite table, key-log lines, toy primitives) and agree with kernel evaluation of `connOut` on the same packets.
 -/
 import TLX.Lemmas.Capstone
 set_option linter.unusedSimpArgs false
@@ -719,6 +752,51 @@ theorem tls13_instance :
   have e : (Spec.TlsConnection.plainOf t13.cEvs, Spec.TlsConnection.plainOf t13.sEvs) = (hi, k16) := by decide
   rw [e] at h
   exact h
+
+-- ---------------------------------------------------------------------- what fails outside the hypotheses
+def pktsOf (cap : List (Bool × Bytes × Nat)) : List MainLoop.Pkt := (List.range cap.length).map fun i =>
+  mkPkt (cap.getD i (false, [], 0)).1 (cap.getD i (false, [], 0)).2.1 i
+def infoOf (cap : List (Bool × Bytes × Nat)) (tag : Nat) : Pipeline.Info :=
+  ⟨(isnOf (cap.getD tag (false, [], 0)).1 + (cap.getD tag (false, [], 0)).2.2) % 4294967296, 1000 + tag, [1], [2], false⟩
+def connOf (cap : List (Bool × Bytes × Nat)) : Pipeline.Conn :=
+  ⟨⟨[443], false, false, false, true, []⟩, sEp, cEp, [2], [1], false, pktsOf cap⟩
+def outOf (cap : List (Bool × Bytes × Nat)) := view (Pipeline.connOut hashes Cipher.Toy.prims (infoOf cap) (connOf cap) kl0)
+
+-- `Causal12` is needed, both halves. The same segments as `cap0`, each direction still in order, but
+-- (1) the ServerHello segment captured before the ClientHello: nothing is exported;
+example : outOf ([cap0.getD 2 default, cap0.getD 0 default, cap0.getD 1 default] ++ cap0.drop 3) = some [] := by
+  decide +kernel
+-- (2) the client's ClientKeyExchange / ChangeCipherSpec / Finished segment captured before the ServerHello: nothing;
+example : outOf ([cap0.getD 0 default, cap0.getD 1 default, cap0.getD 3 default, cap0.getD 2 default] ++ cap0.drop 4)
+    = some [] := by decide +kernel
+-- whereas the capture order of `cap0` (a client record between the two hellos would also be fine) exports everything
+example : outOf cap0 = some [(1004, hi), (1006, k16.take 8), (1008, k16.drop 8)] := by decide +kernel
+
+/-- TLS 1.3, RFC 8446 §5.1 "handshake messages MAY be … fragmented across several records": the server's flight
+    EncryptedExtensions ‖ Certificate ‖ Finished as one byte stream, cut after `cut` bytes into two protected records
+    (`cut = 0`: one record), then the switch to the application keys and 16 bytes of application data -/
+def flightBytes : Bytes :=
+  encMsgs [(8, [0, 0]), (11, [9, 9, 0, 0xff, 0xff, 0xff, 7, 7]), C01Pipeline.Ex.fin]
+def fragRun (cut : Nat) : Option (List (Option Bytes × Bool × Bool)) :=
+  match Dec.init Cipher.Toy.prims .aesgcm .tls13 32 (some 16) 128 false
+      { cHsKey := some k16, sHsKey := some k16', cAppKey := some k16', sAppKey := some k16,
+        cHsIv := some iv12, sHsIv := some iv12, cAppIv := some iv12, sAppIv := some iv12 } with
+  | .ok d =>
+    some ((Session.run (Pipeline.ops Crypto.toyPrims Cipher.Toy.prims []) false (C01Pipeline.Ex.sessOf d .tls13)
+      (wireRecs (run Cipher.Toy.prims Cipher.Toy.laws (.aead13 .aesgcm 16) [3, 3]
+          ⟨SDir.init k16 iv12 k16' iv12, SDir.init k16' iv12 k16 iv12⟩
+          ((if cut = 0 then [Ev.send true 22 flightBytes ⟨[], [], [], 0⟩]
+            else [Ev.send true 22 (flightBytes.take cut) ⟨[], [], [], 0⟩,
+                  Ev.send true 22 (flightBytes.drop cut) ⟨[], [], [], 0⟩])
+            ++ [.switch true, .send true 23 k16 ⟨[], [], [], 0⟩]))
+        [[1], [2], [3]])).traffic.map fun e => (e.data, e.fromServer, e.isApp))
+  | .error _ => none
+-- whole messages per record (the hypothesis inside `DirEv.hs13`): exact
+example : fragRun 0 = some [(some k16, true, true)] := by decide +kernel
+-- the same flight cut inside the Certificate (the second record starts 00 ff ff ff …): the loop of
+-- `handle_decrypted_tls_13_handshake_record` restarts at offset 0, never sees the Finished, `update_keys` is not
+-- called and the server's application data is LOST
+example : fragRun 12 = some [] := by decide +kernel
 
 -- … consistent with evaluating the model on the same packets
 example : view (Pipeline.connOut hashes Cipher.Toy.prims infoCap connCap kl0)
